@@ -423,6 +423,7 @@ C12_STRINGS = ["a = 1; a", "1", "1.5", '"s"', "true", "(1,2)", "()", "", "a", "b
                "\ufeff1 + 2", "\ufeffx", "\ufeff", "\ufeff a", "a\ufeff", "\u200b1", "1 +\ufeff 2",
                "e0", "t1", "t3", "qn", "s0", "mn", "nz", "ni", "mk0()", "mk1()", "f(e0)", "(e0, t1)", "e0 == t1", "qn == qn", "s0 + s0", "-mn", "mn - 1", "nz * 1", "len(e0)", "len(s0)",
                "str::from(t3)", "typeof(e0)", "q2 = e0; q2", "q3 = mk0(); q3", "math::abs(mn)", "nz + nz", "min(1, 2)", "typeof(min)",
+               "zz += 1", "zz *= 2", "a /= 0", "a %= 0", "c -= 1", "x += 1", "a &&= true", "mn -= 1", "a ^= 0.5",
                "PI", "2 * PI", "E", "E = 3; E + 1", "TAU", "SQRT_2 * SQRT_2", "LN_2", "FRAC_PI_2", "pi", "math::pi",
                "1 / 0; (", "a = 1; )", "k = 8; b =", "missing; 1 +", "h(1); )", "a = 2; 1 2", "a = 2; (1,", "f(1); a = 3; \"",
                "nf(1)", "nf(1.5)", "nf(a)", "nf(b)", "nf(c)", "nn(c)", "nn(a)", "nf a", "nf(1) + 1", "nf(x)", "nn(y)", "nf(())"]
@@ -430,6 +431,10 @@ C12_STRINGS = ["a = 1; a", "1", "1.5", '"s"', "true", "(1,2)", "()", "", "a", "b
 C12_PAIRS = [('"a b" + "c"', '"ab" + "c"'), ("1 2", "12"), ("a b", "ab"), ("1 + 2", "1+2"), ("12", "1 2"), ('"x"', '" x"'),
              ("1 - 1", "1 -1"), ("a = 1; a", "a=1;a"), ("1\n2", "12"), ("tr ue", "true"), ("true", "tr ue"), ("1 .5", "1.5"), ("1.5", "1 .5"),
              ("3", "3"), ("a", "a"), ('"q"', '"q" '), ("1 /* c */ 2", "12"), ("0x1 0", "0x10"), ("! true", "!true"), ("= =", "==")]
+
+
+C12_RO_REFUSED = {"a += 1", "a = 5", "q = 1; q", "a = 1; a", '"x" += 1', "3 = 4", '"a" = 3; a', "a = \"s\"", "zz += 1", "zz *= 2", "a /= 0", "a %= 0", "c -= 1", "x += 1", "a &&= true",
+                  "mn -= 1", "a ^= 0.5", "(a) = 4; a", '"q" = 1; q', '"c" = "s"; c', "zz = zz"} - {"zz = zz"}
 
 
 def c12_case(kind, setup, src, then=None):
@@ -550,6 +555,9 @@ def c12_oracle(case, out, model_out):
             want = project_text(ty, base)
             if res[code] != want:
                 return "entry point %s on %r%s in context %s: returned %s, the projection of the untyped result %s is %s" % (code, src, after, m["ctx"], res[code], base, want)
+        # the shared entry points evaluate the operands and then refuse the assignment, whatever the target is or holds
+        if src in C12_RO_REFUSED and "srv" in res and res["srv"] != "ERR ContextNotMutable":
+            return "%r%s through eval_with_context in context %s gives %s; a shared context refuses every assignment with ContextNotMutable once its operands are evaluated" % (src, after, m["ctx"], res["srv"])
         # one evaluator: without an assignment operator in the source, shared and mutable evaluation are the same evaluation
         if "srv" in res and "smv" in res and not re.search(r"(?<![=!<>])=(?!=)", src) and res["srv"] != res["smv"]:
             return "%r%s has no assignment operator but eval_with_context gives %s and eval_with_context_mut gives %s (context %s)" % (src, after, res["srv"], res["smv"], m["ctx"])
